@@ -35,8 +35,13 @@ static const char *DICT_TEXT = "a AH\n"
                                "caf\xc3\xa9 K AE F\n"
                                "ctl\x01x T AH\n"
                                /* sixteen phones: a word whose alignment has many entries under one parent */
-                               "goatakesabeenaiford G OW AH T AE K S EY B IY N AY F AO R D\n";
+                               "goatakesabeenaiford G OW AH T AE K S EY B IY N AY F AO R D\n"
+                               /* the vocabulary of the real-audio lattice column (with the alternates of the model's dictionary) */
+                               "backward B AE K W ER D\neight EY T\nfive F AY V\nfor F AO R\nfor(2) F ER\nfor(3) F R ER\nforward F AO R W ER D\n"
+                               "four F AO R\nmeter M IY T ER\nmeters M IY T ER Z\nnine N AY N\none W AH N\nseven S EH V AH N\nsix S IH K S\nten T EH N\n"
+                               "the DH AH\nthe(2) DH IY\nthree TH R IY\nto T UW\nto(2) T IH\nto(3) T AH\ntwo T UW\n";
 static char DICT_PATH[512];
+static int DC_FULLDICT;
 static int DC_ADDWORDS; /* --addwords 1: the dictionary is built with decoder_add_word instead of being read from the file: the
                            lazily filled cross-word triphone tables must give the same models */
 
@@ -152,7 +157,8 @@ dc_make_decoder(const dc_conf_t *c)
     config_t *cfg = config_init(NULL);
     decoder_t *d;
     config_set_str(cfg, "hmm", MODELDIR);
-    config_set_str(cfg, "dict", DICT_PATH);
+    if (!DC_FULLDICT)
+        config_set_str(cfg, "dict", DICT_PATH); /* else the model's own dictionary (130000 words) */
     config_set_str(cfg, "loglevel", "FATAL");
     if (c->beam)
         config_set_str(cfg, "beam", c->beam);
@@ -205,8 +211,8 @@ dc_make_decoder(const dc_conf_t *c)
 }
 
 /* ---------- grammar specifications ---------- */
-#define GS_MAXA 12
-#define GS_MAXW 16
+#define GS_MAXA 24
+#define GS_MAXW 24
 typedef struct {
     int n, start, final, narcs;
     int from[GS_MAXA], to[GS_MAXA], label[GS_MAXA]; /* label: -1 eps, else index into words[] */
